@@ -1,6 +1,7 @@
 package vergram
 
 import (
+	"flag"
 	"fmt"
 	"os"
 	"testing"
@@ -10,6 +11,7 @@ import (
 
 // The generators must stay inside the grammars the recognisers describe.
 func TestGeneratorsStayInGrammar(t *testing.T) {
+	_ = flag.Set("rapid.nofailfile", "true") // never leave testdata/rapid files behind
 	for _, eco := range Ecosystems {
 		eco := eco
 		t.Run(eco, func(t *testing.T) {
